@@ -67,6 +67,9 @@ def definitions(ev, e1def):
         return ([], [], [(SN2, 'USES IT TWICE', [SN, E4, SN, 1001])])
     if ev == 'd0':
         return ([], [(E1, 'MUST NOT BE DEFINED', 'NUMERIC', 0, 0, 3)], [])
+    if ev == 'dL':
+        # an id that the shipped LOCAL tables of centre 98 (versions 1, 2, 3, 101) also define (there: a 15-bit flag table)
+        return ([], [(E5, 'ALSO IN A SHIPPED LOCAL TABLE', 'NUMERIC', 1, -100, 12)], [])
     raise ValueError(ev)
 
 
@@ -77,6 +80,10 @@ def definition_parts(ev, e1def):
     return [definitions(ev, e1def)]
 
 
+E5 = 49193
+# data messages that select local tables (centre, sub-centre, local version) or none
+DATA_LOCAL = {'xL1': ([E5, 1001], (98, 0, 1)), 'xL101': ([1001, E5], (98, 0, 101)), 'xL0': ([E5, 1001], None)}
+LOCAL_EVENTS = ['dL', 'dA', 'xL1', 'xL101', 'xL0', 'xA']
 DATA = {'xA': [S1, E1], 'xB': [S2, S3, E3], 'xS': [1001, 5002, 301001], 'xM': [1001, E1, S1, 5002], 'xN': [SN, E4, 1001, SN2, E1]}
 
 
@@ -94,10 +101,14 @@ def build_stream(hist, e1def):
                     defs.append((b, d))
                 items.append((ev, m, 'def'))
             continue
-        descs = DATA[ev]
+        local = None
+        if ev in DATA_LOCAL:
+            descs, local = DATA_LOCAL[ev]
+        else:
+            descs = DATA[ev]
         # the definitions extend EVERY table group: data messages name master version 13 or 33 by position
         version = 13 if k % 2 == 0 else 33
-        B, D = tables.load(version)
+        B, D = tables.load(version, local)
         B, D = dict(B), dict(D)
         for b_, d_ in defs:
             B, D = ncep.apply_definitions(B, D, b_, d_)
@@ -120,14 +131,17 @@ def build_stream(hist, e1def):
             # data bits that walk the implementation INTO the undefined descriptor: encode with placeholder definitions
             # for everything that is not defined (so that replication counts are 2 and every body is reached)
             Bp, Dp = dict(B), dict(D)
-            for e in (E1, E2, E3, E4):
+            for e in (E1, E2, E3, E4, E5):
                 Bp.setdefault(e, ('PLACEHOLDER', 'NUMERIC', 0, 0, 8))
             for q, mem in ((S1, [E1, E2]), (S2, [101002, E1, E3]), (S3, [101000, 31001, E2]), (SN, [101000, 31002]), (SN2, [SN, E4, SN, 1001])):
                 Dp.setdefault(q, mem)
             cnt[0] = 0
             buf, subs, notes, nb = codec.encode(Bp, Dp, descs, 1, False, ch)
             exp = ('unknown',)
-        items.append((ev, message.build(ncep.data_spec(descs, master_version=version), buf)[0], exp))
+        spec = ncep.data_spec(descs, master_version=version)
+        if local:
+            spec.meta.update(originating_centre=local[0], originating_subcentre=local[1], local_table_version=local[2])
+        items.append((ev, message.build(spec, buf)[0], exp))
     return b''.join(m for ev, m, exp in items), items
 
 
@@ -358,6 +372,13 @@ def main(tier, seed):
                                                   'definition_deviations': bound - 1, 'filter_expr': FILTER_NO_DEFS},
                  rule='the same histories scanned with a filter expression that rejects the definition messages: they are not '
                       'delivered, the data messages are, decoded by the definitions')
+    # definitions that collide with entries of the shipped local tables: the stream's definition governs, whichever
+    # table group (master version x local tables) a data message selects
+    ml = 3 if tier == 'quick' else 4
+    lh = [h for L in range(1, ml + 1) for h in itertools.product(LOCAL_EVENTS, repeat=L) if any(e[0] == 'x' for e in h)]
+    p = merge_all(run_shards(run_hists, [(s, 0) for s in split(lh, 64)]))
+    rep.add_part('histories-local-tables', p, bounds={'events': LOCAL_EVENTS, 'max_length': ml, 'histories': len(lh),
+                                                      'local_tables': ['98_0/1', '98_0/101', 'none'], 'colliding_id': E5})
     p = run_prepbufr(None)
     p.n['nodes'], p.n['edges'] = p.n['exec'] + 1, p.n['exec']
     rep.add_part('prepbufr', p, bounds={'file': 'tests/data/prepbufr.bufr'})
